@@ -125,6 +125,11 @@ def run(ctx: Context) -> None:
         ctx.check('R19.3', xy is not None, "x, y are the two columns of face_centres (one row per cell in linear order)", mq, xy or mq.node)
         q = [c for c in calls_in(mq) if (dotted(c.func) or '').endswith('Quiver')]
         ok = len(q) == 1 and xy is not None and mm.match(f"Quiver({mq.params[1]}, $x, $y, *$values, **$$kw)", q[0], commit=True)
+        split_form = False
+        if not ok and len(q) == 1 and xy is not None:
+            # the two components kept under a name each instead of as one pair
+            split_form = bool(mm.match(f"Quiver({mq.params[1]}, $x, $y, $cu, $cv, **$$kw)", q[0], commit=True))
+            ok = split_form
         ctx.check('R19.3', bool(ok), "the Quiver receives (x, y, u values, v values) in that order", mq, q[0] if q else mq.node)
         ravels = [c for c in method_calls(mq, 'ravel') if norm_text(c.func.value) == 'self']
         ru = [c for c in ravels if c.args and flow.reaches(c.args[0], lambda n: isinstance(n, ast.Name) and n.id == up and any(d.kind == 'param' for d in flow.defs_of(n)))]
@@ -157,6 +162,19 @@ def run(ctx: Context) -> None:
         if va is not None and ok_rav:
             e0, e1 = (flow.resolve(e) for e in va[1].elts)
             ok = element(e0.value) is ru[0] and element(e1.value) is rv[0]
+        if split_form and ok_rav:
+            # each component: the placeholder numpy.nan by default, and `<its flattened variable>.values` once the checks have passed
+            found = []
+            for key, rav in (('cu', ru[0]), ('cv', rv[0])):
+                defs_ = [n for n in walk_no_nested(mq.node) if isinstance(n, ast.Assign) and len(n.targets) == 1 and isinstance(n.targets[0], ast.Name) and n.targets[0].id == mm.name(key)]
+                vals_ = [flow.resolve(n.value) for n in defs_]
+                taken = [n for n, v in zip(defs_, vals_) if isinstance(v, ast.Attribute) and v.attr == 'values' and element(v.value) is rav]
+                dflt = [n for n, v in zip(defs_, vals_) if norm_text(v) in ('numpy.nan', 'float("nan")', "float('nan')")]
+                if len(defs_) == 2 and len(taken) == 1 and len(dflt) == 1 and dflt[0].lineno < taken[0].lineno:
+                    found.append(taken[0])
+            if len(found) == 2:
+                ok = True
+                va = (min(found, key=lambda n: n.lineno), None)
         ctx.check('R19.3', ok, "the components are u first, v second, taken after flattening", mq, va[0] if va else mq.node)
         raises = [n for n in walk_no_nested(mq.node) if isinstance(n, ast.Raise)]
 
@@ -199,7 +217,20 @@ def run(ctx: Context) -> None:
     ctx.check('R19.4', ok, "frame k shows row k of those frames", inner, sets[0] if sets else inner.node)
     uvc = [c for c in calls_in(inner) if isinstance(c.func, ast.Attribute) and c.func.attr == 'set_UVC']
     vv = ma.stmt('$fu, $fv = ($conv.ravel($vec).values for $vec in $vector)')
-    ok = len(uvc) == 1 and vv is not None and [norm_text(a) for a in uvc[0].args] == [f"{ma.name('fu')}[{inner.params[0]}]", f"{ma.name('fv')}[{inner.params[0]}]"]
+    def also_called(name):
+        # the frames under their own name or under a plain second name given to them in animate_on_figure
+        out = {name}
+        for n in ast.walk(an.node):
+            if isinstance(n, ast.Assign) and len(n.targets) == 1 and isinstance(n.targets[0], ast.Name) and isinstance(n.value, ast.Name) and n.value.id in out:
+                stores_ = [x for x in ast.walk(an.node) if isinstance(x, ast.Name) and x.id == n.targets[0].id and isinstance(x.ctx, ast.Store)]
+                if len(stores_) == 1:
+                    out.add(n.targets[0].id)
+        return out
+    ok = False
+    if len(uvc) == 1 and vv is not None and len(uvc[0].args) == 2:
+        a0, a1 = uvc[0].args
+        ok = all(isinstance(a, ast.Subscript) and isinstance(a.value, ast.Name) and norm_text(a.slice) == inner.params[0] for a in (a0, a1)) \
+            and a0.value.id in also_called(ma.name('fu')) and a1.value.id in also_called(ma.name('fv'))
     ctx.check('R19.4', ok, "vector frames are the ravelled u and v, row k for frame k, u before v", inner, uvc[0] if uvc else inner.node)
 
     # R19.5 shared with C03: ravel flattens the convention's dimensions in the convention's order
